@@ -9,8 +9,9 @@
      Inv c -> abs c = a -> forall op, Inv (cstep c op) /\ abs (cstep c op) = sstep a op /\ out_c = out_s,
      with Inv = every listed name is the hash of its parsed state point file, no '~' / '._*' file anywhere,
      len = |iter| = membership, cache soundness, handle coherence; lifted to all finite op lists.
-   This is FALSE of the code as it is (and of the faithful model): see the five ..._refuted theorems below, all of
-   which concern the handle layer (which store operation a public call through a given handle performs).
+   This is FALSE of the code as it is (and of the faithful model): see the two ..._refuted theorems below (four more
+   were repaired in /repo and are theorems / examples now); all concern the handle layer (which store operation a
+   public call through a given handle performs).
    PROVED (named _partial where they replace the full statement):
    * the store-level refinement: every life-cycle program, under the pre-conditions of its C02 / C04 theorem, acts
      on the abstraction as the simple model's update (the C03_..._refines_... theorems), any step meeting its get-level
@@ -64,6 +65,7 @@ Print Assumptions C03_refine_run_partial.
 Theorem C03_init_refines_create : forall frepr w h sp,
   (h < length (w_hs w))%nat ->
   h_cell (getH w h) = None -> h_cached (getH w h) = Some sp -> h_id (getH w h) = calc_id frepr sp ->
+  is_null sp = false ->
   let wsd := wsp (getS w (h_s (getH w h))) in
   (forall k, (k <= length wsd)%nat -> get (w_fs w) (firstn k wsd) = Some Dir) ->
   (forall q, under (wsd ++ [h_id (getH w h)]) q = true -> get (w_fs w) q = None) ->
@@ -93,7 +95,7 @@ Theorem C03_rekey_refines_rekey : forall frepr w ci cf,
   let wsd := wsp (getS w (h_s h0)) in
   let src := wsd ++ [old] in
   let dst := wsd ++ [new] in
-  old <> new -> is_id old = true ->
+  old <> new -> is_null (c_data c) = false -> is_id old = true ->
   js <> [] ->
   (forall j, In j js -> (j < length (w_hs w))%nat /\ h_cell (getH w j) = Some ci /\ h_s (getH w j) = h_s h0) ->
   getCF w ci = src ++ [SPF] ->
@@ -141,7 +143,7 @@ Theorem C03_rekey_leaves_no_temp : forall frepr w ci cf,
   let wsd := wsp (getS w (h_s h0)) in
   let src := wsd ++ [old] in
   let dst := wsd ++ [new] in
-  old <> new -> js <> [] ->
+  old <> new -> is_null (c_data c) = false -> js <> [] ->
   (forall j, In j js -> (j < length (w_hs w))%nat /\ h_cell (getH w j) = Some ci /\ h_s (getH w j) = h_s h0) ->
   getCF w ci = src ++ [SPF] ->
   get (w_fs w) (src ++ [SPF]) = Some (File cf) ->
@@ -154,30 +156,59 @@ Theorem C03_rekey_leaves_no_temp : forall frepr w ci cf,
 Proof. exact rekey_leaves_no_temp. Qed.
 Print Assumptions C03_rekey_leaves_no_temp.
 
-(* ---- where the PUBLIC operations do not act as the simple model: concrete witnesses in the faithful model,
-   each replayed on the real signac in every run (harness/c03.py SCRIPTS; known_findings.d/C03.json tags 2-5, 7) *)
-Theorem C03_refine_step_failed_rekey_refuted :
+(* ---- the four handle-layer defects repaired in /repo (5e72814, 270ca63, b6340e2, d38783c): the statements that were
+   refuted are now theorems (general form) with a run of the former witness *)
+(* a rejected re-key is rolled back in memory too: general form = last conjunct of C04_rekey_conflict *)
+Theorem C03_failed_rekey_is_rolled_back_example :
   run wfr w0 0 [ONewSession wA; OOpenSp 0 xa0; OInit 0 false; OOpenSp 0 xa1; OInit 1 false;
-                OEdit 0 [] (ESetKey kA (JInt 1)); OEdit 0 [] (ESetKey xB (JInt 0)); OIds 0]
-  = [VUnit; VStr (xid xa0); VUnit; VStr (xid xa1); VUnit; VExn EDestinationExists; VUnit;
-     VStrs [xid xa1; xid xa1b0]].
-Proof. exact dirty_witness. Qed.
-Print Assumptions C03_refine_step_failed_rekey_refuted.
+                OEdit 0 [] (ESetKey kA (JInt 1)); OSp 0; OEdit 0 [] (ESetKey xB (JInt 0)); OIds 0]
+  = [VUnit; VStr (xid xa0); VUnit; VStr (xid xa1); VUnit; VExn EDestinationExists; VJson xa0; VUnit;
+     VStrs [xid xa1; xid xa0b0]].
+Proof. exact rollback_example. Qed.
+Print Assumptions C03_failed_rekey_is_rolled_back_example.
 
+(* init() through a handle whose state point cannot be loaded changes nothing (no empty directory) *)
+Theorem C03_init_unloadable_no_effect : forall frepr susp force w h w1 e,
+  sp_access frepr w h = (w1, inr e) -> init frepr susp force w h = (w, inr e).
+Proof. exact init_unloadable_no_effect. Qed.
+Print Assumptions C03_init_unloadable_no_effect.
+
+Theorem C03_lazy_handle_example :
+  run wfr w0 0 [ONewSession wA; OOpenSp 0 xa0; OInit 0 false; ONewSession wA; OOpenId 1 (xid xa0); ORemove 0;
+                OInit 1 false; OCheck 0; OIds 0]
+  = [VUnit; VStr (xid xa0); VUnit; VUnit; VStr (xid xa0); VUnit; VExn EJobsCorrupted; VUnit; VStrs []].
+Proof. exact lazy_example. Qed.
+Print Assumptions C03_lazy_handle_example.
+
+(* open_job(id = ...) only ever resolves to an exactly id-shaped name *)
+Theorem C03_open_by_id_requires_id_name : forall f wsd i m, resolve f wsd i = inl m -> is_id m = true.
+Proof. exact resolve_requires_id. Qed.
+Print Assumptions C03_open_by_id_requires_id_name.
+
+Theorem C03_non_id_name_example :
+  let bak := xid xa0 ++ [46; 98; 97; 107]%N in
+  run wfr w0 0 [ONewSession wA; OOpenSp 0 xa0; OInit 0 false; OPlantDir (wA ++ [WS; bak]); OOpenId 0 bak; OIds 0; OLen 0]
+  = [VUnit; VStr (xid xa0); VUnit; VUnit; VExn EKeyError; VStrs [xid xa0]; VNum 1].
+Proof. exact non_id_name_example. Qed.
+Print Assumptions C03_non_id_name_example.
+
+(* a moved handle has left its old cell (general form: last conjunct of C04_move_ok) *)
+Theorem C03_moved_handle_copy_example :
+  run wfr w0 0 [ONewSession wA; ONewSession xwB; OOpenSp 0 xa0; OInit 0 false; OSp 0; OCopy 0; OMove 0 1;
+                OEdit 1 [] (ESetKey kA (JInt 2)); OIdPath 0; OIdPath 1; OIds 1; OIds 0]
+  = [VUnit; VUnit; VStr (xid xa0); VUnit; VJson xa0; VStr (xid xa0); VUnit; VUnit;
+     VIdPath (xid xa0) (xwB ++ [WS; xid xa0]); VIdPath (xid xa2) (wA ++ [WS; xid xa2]); VStrs [xid xa0]; VStrs []].
+Proof. exact moved_copy_example. Qed.
+Print Assumptions C03_moved_handle_copy_example.
+
+(* ---- where the PUBLIC operations still do not act as the simple model: concrete witnesses in the faithful model,
+   each replayed on the real signac in every run (harness/c03.py SCRIPTS; known_findings.d/C03.json tags 3, 4) *)
 Theorem C03_refine_step_second_handle_refuted :
   run wfr w0 0 [ONewSession wA; OOpenSp 0 xa0; OInit 0 false; OOpenSp 0 xa0; OSp 1;
                 OEdit 0 [] (ESetKey kA (JInt 1)); OEdit 1 [] (ESetKey xB (JInt 0))]
   = [VUnit; VStr (xid xa0); VUnit; VStr (xid xa0); VJson xa0; VUnit; VExn EKeyError].
 Proof. exact lock_witness. Qed.
 Print Assumptions C03_refine_step_second_handle_refuted.
-
-Theorem C03_refine_step_lazy_handle_refuted :
-  run wfr w0 0 [ONewSession wA; OOpenSp 0 xa0; OInit 0 false; ONewSession wA; OOpenId 1 (xid xa0); ORemove 0;
-                OInit 1 false; OCheck 0; OIds 0]
-  = [VUnit; VStr (xid xa0); VUnit; VUnit; VStr (xid xa0); VUnit; VExn EJobsCorrupted; VExn EJobsCorrupted;
-     VStrs [xid xa0]].
-Proof. exact lazy_witness. Qed.
-Print Assumptions C03_refine_step_lazy_handle_refuted.
 
 Theorem C03_refine_step_stale_document_refuted :
   run wfr w0 0 [ONewSession wA; OOpenSp 0 xa0; OInit 0 false; ODocSet 0 kA (JInt 1); OOpenSp 0 xa0; ODoc 1;
@@ -186,14 +217,6 @@ Theorem C03_refine_step_stale_document_refuted :
      VJson (JObj [(kA, JInt 1); (xB, JInt 2)])].
 Proof. exact stale_doc_witness. Qed.
 Print Assumptions C03_refine_step_stale_document_refuted.
-
-Theorem C03_refine_step_moved_handle_copy_refuted :
-  run wfr w0 0 [ONewSession wA; ONewSession xwB; OOpenSp 0 xa0; OInit 0 false; OSp 0; OCopy 0; OMove 0 1;
-                OEdit 1 [] (ESetKey kA (JInt 2)); OIdPath 0; OIds 1; OIds 0]
-  = [VUnit; VUnit; VStr (xid xa0); VUnit; VJson xa0; VStr (xid xa0); VUnit; VUnit;
-     VIdPath (xid xa2) (xwB ++ [WS; xid xa2]); VStrs [xid xa0]; VStrs []].
-Proof. exact moved_copy_witness. Qed.
-Print Assumptions C03_refine_step_moved_handle_copy_refuted.
 
 (* ---- licence for the correspondence step (partial): on the listing clauses the oracle reads the same
    function of the tree as the model ([tree_ids] of CorrC02 on exact ids vs [job_dirs]); the store-level
